@@ -211,6 +211,8 @@ var vkRRsets = []vkRRsetSpec{
 	{Name: "srv2", Signed: []string{"_s._tcp.example.org. 300 IN SRV 10 5 443 B.Example.org.", "_s._tcp.example.org. 300 IN SRV 10 5 443 a.example.org."}},
 	{Name: "aaaa-dup", Signed: []string{"d.example.org. 300 IN AAAA 2001:db8::1", "d.example.org. 300 IN AAAA 2001:db8::1", "d.example.org. 300 IN AAAA 2001:db8::2"}},
 	{Name: "wild-deep", Signed: []string{"*.example.org. 300 IN TXT \"w\""}, Verify: []string{"p.q.example.org. 300 IN TXT \"w\""}},
+	{Name: "wild-esc", Signed: []string{"*.example.org. 300 IN A 192.0.2.10"}, Verify: []string{`a\.b.example.org. 300 IN A 192.0.2.10`}},
+	{Name: "wild-esc-deep", Signed: []string{"*.example.org. 300 IN TXT \"e\""}, Verify: []string{`x.a\.b.example.org. 300 IN TXT "e"`}},
 	{Name: "wild-literal", Signed: []string{"*.example.org. 300 IN A 192.0.2.8"}},
 	{Name: "nsec", Signed: []string{"a.example.org. 300 IN NSEC B.Example.org. A RRSIG NSEC"}},
 	{Name: "ds", Signed: []string{"child.example.org. 300 IN DS 12345 8 2 E2D3C916F6DEEAC73294E8268FB5885044A833FC5459588F4A9184CFC41A5766"}},
